@@ -3,15 +3,20 @@
 
    PARTIAL BY NATURE.  What is proved here is the part of the macro that is ordinary code: the literal unescaper
    parse_str_literal (Model/Unescape.v) against the Rust Reference's string-literal semantics (Spec/RustLiteral.v),
-   and the composition macro = parse . unescape with the parser model of C11 (Model/Pattern.v).  The code generation
-   step - the atom vector formatted with Debug and re-parsed as tokens inside rustc - has no model; it is covered only
-   by the correspondence check (a generated crate, compiled against the working tree, whose consts are compared with
-   pelite::pattern::parse of the same literals).
+   the composition macro = parse . unescape with the parser model of C11 (Model/Pattern.v), and - section (4) - the
+   code generation step as far as it is code of the crate: the TEXT the macro returns (the atom vector formatted with
+   the derived Debug inside the format string, Model/Codegen.v) read back by an independent reader of the Rust
+   fragment it is written in (Spec/RustTokens.v: tokens, the block with the glob import, the borrowed array, the
+   variant table with arities and field ranges).  That rustc's own lexer, parser and name resolution read that text
+   the way Spec/RustTokens.v does is NOT proved (it is not code of the crate); it is covered by the correspondence
+   check only (generated crates, compiled against the working tree, whose consts are compared with
+   pelite::pattern::parse of the same literals and with hand-built vectors of every variant).
 
    A literal is the list of chars of the token as written (quotes and suffix included), after CRLF normalisation. *)
-From PV.Model Require Import Machine Pattern Unescape.
-From PV.Spec Require Import RustLiteral.
-From PV.Proofs Require UnescapeProofs.
+From Coq Require Import String.
+From PV.Model Require Import Machine Pattern Unescape Codegen.
+From PV.Spec Require Import RustLiteral RustTokens.
+From PV.Proofs Require UnescapeProofs PatRangeProofs CodegenProofs.
 
 (* (1) Where the macro accepts a literal it assigns it Rust's meaning: no escape is read differently, no backslash
    is dropped, nothing after the closing quote is ignored.  [~ In 13 lit]: no isolated CR in the token - rustc's
@@ -134,7 +139,117 @@ Example C17_nonvacuous :
   /\ macro_model lit = MExpands [Save 0; Byte 232; Push 4; Jump4; Save 1; Pop; Byte 97; Byte 92; Byte 9; Byte 98; Skip 1; Byte 15].
 Proof. vm_compute. repeat split; reflexivity. Qed.
 
-(* OPEN: C17_codegen_roundtrip : for every atom list a, the tokens rustc obtains from
-   format!("{{ use ::pelite::pattern::Atom::*; &{:?} }}", a) evaluate to a slice equal to a
-   - the Debug-print-and-reparse step of the macro (DESIGN.md section 7 C17).  It runs inside rustc and has no model;
-   covered by the correspondence check only (translation validation on generated crates). *)
+(* ==== (4) code generation: the text the macro returns, read back as Rust ====
+   Model/Codegen.v: [fmt_dec] (Display of an unsigned integer), [debug_atom] (the derived Debug of enum Atom: 20 tuple
+   variants with one u8 field, 6 unit variants), [debug_atoms] (Debug of Vec<Atom>), [rust_format] on the format string
+   of lib.rs:31, [expansion] = the whole text, [macro_expansion] = the macro up to that text.
+   Spec/RustTokens.v: [tokenize], [eval_tokens], [eval_expansion] : text -> option (list atom).
+   [atom_u8 a]: the field of [a] (if it has one) is below 256 - true of every Rust value of the enum by its type; the
+   model's fields are unbounded N, hence the hypothesis. *)
+
+(* the format string has one hole: the text is the constant head, the Debug text of the vector, and the closing brace *)
+Theorem C17_expansion_text : forall atoms,
+  expansion atoms = CodegenProofs.head_text ++ debug_atoms atoms ++ [32; 125].
+Proof. exact CodegenProofs.expansion_eq. Qed.
+Print Assumptions C17_expansion_text.
+
+(* Display of an integer, read back as a Rust integer literal, for EVERY n: one token, the same value *)
+Theorem C17_decimal_roundtrip : forall n, tokenize (fmt_dec n) = Some [TInt n].
+Proof. exact CodegenProofs.decimal_roundtrip. Qed.
+Print Assumptions C17_decimal_roundtrip.
+
+(* the round trip, for EVERY atom vector: the printed text evaluates to a slice equal to the vector *)
+Theorem C17_codegen_roundtrip : forall atoms, Forall atom_u8 atoms -> eval_expansion (expansion atoms) = Some atoms.
+Proof. exact CodegenProofs.codegen_roundtrip. Qed.
+Print Assumptions C17_codegen_roundtrip.
+
+(* no two vectors are printed as the same text *)
+Theorem C17_expansion_injective : forall a b, Forall atom_u8 a -> Forall atom_u8 b -> expansion a = expansion b -> a = b.
+Proof. exact CodegenProofs.expansion_injective. Qed.
+Print Assumptions C17_expansion_injective.
+
+(* the hypothesis is needed and says the right thing: a field that does not fit the u8 is printed as a literal that
+   does not compile *)
+Theorem C17_out_of_range_refused : eval_expansion (expansion [Save 0; Byte 256]) = None.
+Proof. exact CodegenProofs.out_of_range_refused. Qed.
+Print Assumptions C17_out_of_range_refused.
+
+(* ... for every vector: the text evaluates to the vector exactly when every field fits *)
+Theorem C17_codegen_roundtrip_iff : forall atoms, eval_expansion (expansion atoms) = Some atoms <-> Forall atom_u8 atoms.
+Proof. exact CodegenProofs.codegen_roundtrip_iff. Qed.
+Print Assumptions C17_codegen_roundtrip_iff.
+
+(* the hypothesis always holds where the macro uses the printer: the run-time parser's atoms fit their fields, for
+   every input of bytes (an invariant of the parser loop: result vector, save counter, saved counters of open groups) *)
+Theorem C17_parse_output_fits_u8 : forall input atoms, Forall (fun b => b < 256) input ->
+  parse input = Ok (inr atoms) -> Forall atom_u8 atoms.
+Proof. exact PatRangeProofs.parse_u8. Qed.
+Print Assumptions C17_parse_output_fits_u8.
+
+(* (3) THROUGH THE PRINTED TEXT.  [Forall scalar lit]: the token is a list of Rust chars.  For every Rust string literal
+   outside the known class the text the macro returns evaluates to exactly the atoms the run-time parser returns for
+   the literal's value; the call does not compile when the run-time parser rejects the value ... *)
+Theorem C17_macro_text_eq_runtime_parse : forall lit s, Forall UnescapeProofs.scalar lit -> rust_unescape lit = Some s ->
+  escape_not_supported_by_macro lit = false ->
+  exists r, parse (utf8_encode s) = Ok r /\
+    match r with
+    | inr atoms => exists text, macro_expansion lit = TExpands text /\ eval_expansion text = Some atoms
+    | inl (e, pos) => macro_expansion lit = TPattern e pos
+    end.
+Proof. exact CodegenProofs.macro_text_eq_runtime_parse. Qed.
+Print Assumptions C17_macro_text_eq_runtime_parse.
+
+(* ... and conversely whatever text the macro returns, for ANY token, evaluates to the run-time parser's result on
+   Rust's reading of the token *)
+Theorem C17_macro_text_is_runtime_parse : forall lit text, ~ In 13 lit -> Forall UnescapeProofs.scalar lit ->
+  macro_expansion lit = TExpands text ->
+  exists s atoms, rust_unescape lit = Some s /\ parse (utf8_encode s) = Ok (inr atoms) /\ eval_expansion text = Some atoms.
+Proof. exact CodegenProofs.macro_text_is_runtime_parse. Qed.
+Print Assumptions C17_macro_text_is_runtime_parse.
+
+(* totality up to the returned text: a text or an explicit refusal, never a fault; and the returned text always
+   lexes and evaluates, to the vector the macro computed (the `.parse().unwrap()` of lib.rs:31 finds tokens) *)
+Theorem C17_macro_expansion_no_fault : forall lit f, macro_expansion lit <> TFault f.
+Proof. exact CodegenProofs.macro_expansion_no_fault. Qed.
+Print Assumptions C17_macro_expansion_no_fault.
+Theorem C17_macro_text_compiles : forall lit text, Forall UnescapeProofs.scalar lit -> macro_expansion lit = TExpands text ->
+  exists ts atoms, tokenize text = Some ts /\ eval_tokens ts = Some atoms /\ macro_model lit = MExpands atoms.
+Proof. exact CodegenProofs.macro_text_compiles. Qed.
+Print Assumptions C17_macro_text_compiles.
+
+(* the boolean evaluated on the implementation's printed text is the reflection of the round trip *)
+Theorem C17_codegen_oracle_holds_on_model : forall atoms, Forall atom_u8 atoms ->
+  codegen_oracle atom_eqb (expansion atoms) atoms = true.
+Proof. exact CodegenProofs.codegen_oracle_holds. Qed.
+Print Assumptions C17_codegen_oracle_holds_on_model.
+
+(* non-vacuity: the text of a vector with every kind of variant and the boundary field values, spelled out; the reader
+   accepts a trailing comma and other whitespace and refuses an unknown name, a unit variant that is called, a tuple
+   variant that is not, a literal suffix and a negative literal *)
+Example C17_codegen_nonvacuous :
+  let v := [Save 0; Byte 144; Push 4; Jump4; Pop; Skip 255; Rangext 1; Many 10; VTypeName; ReadI16 7; Nop] in
+  expansion v = text_of "{ use ::pelite::pattern::Atom::*; &[Save(0), Byte(144), Push(4), Jump4, Pop, Skip(255), Rangext(1), Many(10), VTypeName, ReadI16(7), Nop] }"
+  /\ eval_expansion (expansion v) = Some v
+  /\ eval_expansion (expansion []) = Some []
+  /\ eval_expansion (text_of "{use ::pelite::pattern::Atom::*;&[Byte( 7 ,),Pop,]}") = Some [Byte 7; Pop]
+  /\ eval_expansion (text_of "{ use ::pelite::pattern::Atom::*; &[Bite(7)] }") = None
+  /\ eval_expansion (text_of "{ use ::pelite::pattern::Atom::*; &[Pop(7)] }") = None
+  /\ eval_expansion (text_of "{ use ::pelite::pattern::Atom::*; &[Byte] }") = None
+  /\ eval_expansion (text_of "{ use ::pelite::pattern::Atom::*; &[Byte(7u8)] }") = None
+  /\ eval_expansion (text_of "{ use ::pelite::pattern::Atom::*; &[Byte(-7)] }") = None
+  /\ eval_expansion (text_of "{ use ::pelite::pattern::Atom::*; [Byte(7)] }") = None.
+Proof. vm_compute. repeat split; reflexivity. Qed.
+
+(* the macro end to end: the literal of C17_nonvacuous, its text and the value of the text *)
+Example C17_macro_text_nonvacuous :
+  let lit := [34; 69;56;32; 36;123;39;125;32; 92;34; 97; 92;92; 92;116; 98; 92;34; 32;63;32; 48;70; 34] in
+  macro_expansion lit = TExpands (text_of "{ use ::pelite::pattern::Atom::*; &[Save(0), Byte(232), Push(4), Jump4, Save(1), Pop, Byte(97), Byte(92), Byte(9), Byte(98), Skip(1), Byte(15)] }")
+  /\ (match macro_expansion lit with TExpands t => eval_expansion t | _ => None end)
+     = Some [Save 0; Byte 232; Push 4; Jump4; Save 1; Pop; Byte 97; Byte 92; Byte 9; Byte 98; Skip 1; Byte 15].
+Proof. vm_compute. repeat split; reflexivity. Qed.
+
+(* OPEN: C17_rustc_reads_expansion_as_spec : rustc's tokenizer (str::parse::<TokenStream>), expression parser and name
+   resolution agree with Spec/RustTokens.v on the expansion text: the block compiles to a &[Atom] equal to
+   eval_expansion of the text, in any scope the macro may be invoked in.  rustc is not code of the crate and has no
+   model; covered by the correspondence check only (translation validation on generated crates: the consts produced by
+   pattern!(..) and by hand-built expansion texts of every variant, compared element by element). *)
